@@ -187,6 +187,15 @@ impl G<'_> {
                     "(HOME=$HERE/d1; cd; echo \"st=$? ${PWD#$HERE}\"; cd -; echo \"st=$? ${PWD#$HERE}\") | relay",
                     "(cd d1/d2; cd ../..; echo \"st=$? ${PWD#$HERE}\"; cd d1/../f0 2>/dev/null; echo \"st=$? ${PWD#$HERE}\")",
                     "(cd d1; echo x >../up.out; relay <../up.out; echo *; echo ../f?)",
+                    // odd but valid path spellings
+                    "echo x >f0/ 2>/dev/null; echo \"st=$?\"; relay <f0/ 2>/dev/null; echo \"st=$?\"; echo y >newt/ 2>/dev/null; echo \"st=$?\"",
+                    "relay <d1//g0; echo \"st=$?\"; relay <.//d1/./../d1/g0; echo \"st=$?\"; echo z >d1//two.out; echo \"st=$?\"; relay <d1/two.out",
+                    "relay <\"\" 2>/dev/null; echo \"st=$?\"; echo x >\"\" 2>/dev/null; echo \"st=$?\"; (cd \"\" 2>/dev/null; echo \"st=$? ${PWD#$HERE}\")",
+                    "(cd /..; echo \"st=$? $PWD\"; cd //; echo \"st=$? $PWD\"; cd /./; echo \"st=$? $PWD\")",
+                    "(cd d1/; echo \"st=$? ${PWD#$HERE}\"; cd ../d1//d2/; echo \"st=$? ${PWD#$HERE}\"; echo */ ../*/ 2>&1)",
+                    "exec 7<. ; read -r a <&7; echo \"st=$?\"; exec 7<&-",
+                    "echo x >./d1/../d1/./dot.out; echo \"st=$?\"; relay <d1/dot.out; echo d1/dot*",
+                    "echo x >d1/missing/../dd.out 2>/dev/null; echo \"st=$?\"; echo d1/dd*; relay <f0/../f1 2>/dev/null; echo \"st=$?\"",
                     // a child that has been waited for no longer exists: no signal reaches it
                     "(exit 3) & p=$!; wait; kill -s TERM $p 2>/dev/null; echo \"kill st=$?\"; wait $p; echo \"st=$?\"",
                     "(exit 4) & p=$!; wait $p; echo \"st=$?\"; kill -s 0 $p 2>/dev/null; echo \"kill0 st=$?\"; kill -s CONT $p 2>/dev/null; echo \"cont st=$?\"",
